@@ -10,7 +10,7 @@ from mcv.gen import containers as C
 from mcv.gen import cue as Q
 from mcv.checks.c10 import parse_table
 
-ENCODINGS = ["raw", "raw2352", "mdx", "cue_raw", "cue_2352", "cue_subdir"]
+ENCODINGS = ["raw", "raw2352", "mdx", "cue_raw", "cue_2352", "cue_subdir", "cue_cosmetic"]
 
 
 def write_encodings(d, payload):
@@ -32,7 +32,12 @@ def write_encodings(d, payload):
         f.write(b"\x00" * 4096)
     with open(os.path.join(d, "sub", "c.cue"), "w") as f:
         f.write(C.data_cue("images/disc.bin", "MODE1/2048"))
-    return {"raw": os.path.join(d, "raw.img"), "raw2352": os.path.join(d, "raw2352.bin"), "mdx": os.path.join(d, "x.mdx"),
+    # the same sheet as a.cue written the way other tools write it: lower / mixed case keywords, header and unknown lines
+    # in any case, blanks, tabs, blank lines, CR LF line ends
+    with open(os.path.join(d, "d.cue"), "wb") as f:
+        f.write(b'rem made by some tool\r\nTitle "disc"\r\nperformer "x"\r\nRem FILE "z.bin" BINARY\r\n  file "a.bin" binary  \r\n\r\n'
+                b'\ttrack 01 mode1/2048\r\n      flags dcp\r\n      Index 01 00:00:00  \r\n\r\n')
+    return {"cue_cosmetic": os.path.join(d, "d.cue"), "raw": os.path.join(d, "raw.img"), "raw2352": os.path.join(d, "raw2352.bin"), "mdx": os.path.join(d, "x.mdx"),
             "cue_raw": os.path.join(d, "a.cue"), "cue_2352": os.path.join(d, "b.cue"), "cue_subdir": os.path.join(d, "sub", "c.cue")}
 
 
@@ -80,7 +85,9 @@ def run_case(case):
             if obs["class"] != base["class"]:
                 return False, f"{enc}:class-differs", {"raw": base["class"], enc: obs["class"]}
             if obs["ls"] != base["ls"]:
-                k = next((k for k in base["ls"] if obs["ls"].get(k) != base["ls"][k]), None) or next(iter(set(obs["ls"]) - set(base["ls"])), "?")
+                k = next((k for k in base["ls"] if obs["ls"].get(k) != base["ls"][k]), None)
+                if k is None:
+                    k = next(iter(set(obs["ls"]) - set(base["ls"])), "?")
                 return False, f"{enc}:ls-differs", {"node": k, "raw": base["ls"].get(k, "<missing>")[:200], enc: obs["ls"].get(k, "<missing>")[:200]}
             if obs["files"] != base["files"] or obs["reported"] != base["reported"]:
                 diff = sorted(set(obs["files"]) ^ set(base["files"]))[:4] or [p for p in base["files"] if obs["files"][p] != base["files"][p]][:4]
@@ -136,7 +143,8 @@ class Check(CheckBase):
             "chains/window/header sweeps of C02 (quick: every 12th; odd cluster counts make cluster reads straddle 2048-byte "
             "user-data boundaries) x trailing bytes {0,1,2047,2048} (zero and non-zero), one small image with every trailing sector count 0..127 "
             "(thorough 0..511), truncated payloads, x the encodings {raw, MODE1/2352, "
-            "MDX, cue->raw, cue->2352, cue in another directory naming its bin with a path} as real files: same image class, character-identical ls text at every node reachable "
+            "MDX, cue->raw, cue->2352, cue in another directory naming its bin with a path, cue->raw written with lower/mixed case "
+            "keywords, header and unknown lines, tabs, blank lines and CR LF} as real files: same image class, character-identical ls text at every node reachable "
             "through the printed names, identical exported trees (paths + bytes); cue dispatch: all combinations of "
             "AUDIO/MODE1/2352/MODE2/2352 modes over <=3 tracks; long sheets: n titled audio tracks (+ a data track last) for "
             "every n<=98, k comment lines before FILE for every k<300 (thorough <1200) and 5000, 20000; an all-audio sheet "
